@@ -481,6 +481,7 @@ class Compiler:
 
     def _compile_statement(self, node: Node) -> None:
         """Compile a statement."""
+        self._set_loc(node)  # errors raised while it runs report where it starts
         if isinstance(node, ExpressionStatement):
             self._compile_expression(node.expression)
             self._emit(OpCode.POP)
@@ -1001,6 +1002,7 @@ class Compiler:
 
         This is used for eval semantics where the last statement's value is returned.
         """
+        self._set_loc(node)
         if isinstance(node, ExpressionStatement):
             # Expression statement: value is the expression's value
             self._compile_expression(node.expression)
@@ -1119,6 +1121,9 @@ class Compiler:
         old_in_function = self._in_function
         old_free_vars = self._free_vars
         old_cell_vars = self._cell_vars
+        old_source_map = self.source_map
+        old_loc = self._current_loc
+        self.source_map = {}  # every function has its own bytecode offsets
 
         # Push current locals to outer scope stack (for closure resolution)
         if self._in_function:
@@ -1166,6 +1171,7 @@ class Compiler:
             num_locals=len(self.locals),
             free_vars=self._free_vars[:],
             cell_vars=self._cell_vars[:],
+            source_map=self.source_map,
         )
 
         # Pop outer scope if we pushed it
@@ -1181,6 +1187,8 @@ class Compiler:
         self._in_function = old_in_function
         self._free_vars = old_free_vars
         self._cell_vars = old_cell_vars
+        self.source_map = old_source_map
+        self._current_loc = old_loc
 
         return func
 
@@ -1208,6 +1216,9 @@ class Compiler:
         old_in_function = self._in_function
         old_free_vars = self._free_vars
         old_cell_vars = self._cell_vars
+        old_source_map = self.source_map
+        old_loc = self._current_loc
+        self.source_map = {}  # every function has its own bytecode offsets
 
         # Push current locals to outer scope stack (for closure resolution)
         if self._in_function:
@@ -1268,6 +1279,7 @@ class Compiler:
             num_locals=len(self.locals),
             free_vars=self._free_vars[:],
             cell_vars=self._cell_vars[:],
+            source_map=self.source_map,
         )
 
         # Pop outer scope if we pushed it
@@ -1283,6 +1295,8 @@ class Compiler:
         self._in_function = old_in_function
         self._free_vars = old_free_vars
         self._cell_vars = old_cell_vars
+        self.source_map = old_source_map
+        self._current_loc = old_loc
 
         return func
 
